@@ -8,22 +8,28 @@ pub mod c03;
 pub mod c04;
 pub mod c04t;
 pub mod c05;
+pub mod c05t;
 pub mod c06;
+pub mod c06t;
 pub mod c09;
 pub mod c10;
 pub mod c11;
 pub mod c12;
 pub mod c13;
+pub mod c13t;
 pub mod c14;
+pub mod c14t;
 pub mod c15;
 pub mod c16;
 pub mod c17;
 pub mod c18;
 pub mod c19;
+pub mod c19t;
 pub mod c20;
 pub mod common;
 pub mod profiles;
 pub mod stream;
+pub mod stream64;
 
 pub fn main(args: &[String]) {
     let mut profile = "C01".to_string();
